@@ -109,6 +109,64 @@ PROPS = {
 
 LEVEL_TEXT = {}
 
+CXX_TRUST = [
+    'CxxVC engine (vf/cxxvc.py, vf/cxx_ast.py): symbolic semantics of the accepted C++ statement/expression subset over '
+    "clang 14's JSON AST of the instantiated bodies; integers as bit-vectors of their C++ width",
+    'clang 14 front-end (template instantiation, implicit conversions, constant evaluation) and g++ 12 sizeof/alignof',
+    'z3 5.1 / cvc5 1.0.3 (incl. its bit-vector-to-integer translation) soundness',
+    'assumed library contracts: std::vector (size/data/resize/push_back/pop_back/back), std::min, std::accumulate, '
+    'prophy::optional (engaged flag), std::vector<uint8_t>(n) storage 16-byte aligned',
+]
+CXX_ENV = [
+    'environment: addresses < 2^62, inputs and arrays shorter than 2^48 bytes/elements, host little-endian (x86-64)',
+    'the input buffer / output buffer of a message starts at an address that is a multiple of the message alignment '
+    '(documented requirement of the C++ codec)',
+    'generated code is verified per schema of an enumerated family (all values of each schema): translation validation of '
+    "prophyc's output, not a proof about the generator for all schemas -- the latter is covered by the bounded stand-in",
+]
+CXX_TECH = ('contract-based deductive verification: self-generated VCs from clang\'s JSON AST of the real headers and of '
+            'prophyc-generated C++ (CxxVC, bit-vector semantics), discharged by z3/cvc5; PyVC contracts on the Python side; '
+            'bounded sanitizer stand-in (g++ -fsanitize=address,undefined driver over a schema family) for what the '
+            'contracts assume')
+
+PROPS['C07'] = {
+    'modules': [], 'static': ['vf.cxx_check:C07'], 'standins': ['cxx_codec'], 'cxx': True,
+    'trusted': CXX_TRUST,
+    'assumptions': CXX_ENV + ['-fsanitize=enum is off in the stand-in: under C++11 (the project\'s -std) an out-of-range value '
+                              'cast to an enumeration is unspecified, not undefined'],
+    'level': 'proof', 'technique': CXX_TECH,
+}
+PROPS['C05'] = {
+    'modules': ['contracts.c04_model'], 'static': ['vf.cxx_check:C05'], 'standins': ['cxx_codec'], 'cxx': True,
+    'trusted': PYVC_TRUST + CXX_TRUST,
+    'assumptions': CXX_ENV + ['arrays hold no more elements than their sizer type can count (otherwise: recorded finding)'],
+    'level': 'proof', 'technique': CXX_TECH,
+}
+PROPS['C03'] = {
+    'modules': ['contracts.c04_model', 'contracts.c01_encode', 'contracts.c02_decode'], 'static': ['vf.cxx_check:C03'],
+    'standins': ['cxx_codec'], 'cxx': True,
+    'trusted': PYVC_TRUST + CXX_TRUST,
+    'assumptions': CXX_ENV + ['byte content of arrays and nested composites written by the C++ encoders is not modelled '
+                              '(cursor positions, scalar bytes and sizes are): content equality over whole messages is '
+                              'the bounded stand-in\'s part'],
+    'level': 'other', 'technique': CXX_TECH,
+}
+PROPS['C08'] = {
+    'modules': ['contracts.c04_model'], 'standins': ['cxx_raw'], 'cxx': True,
+    'trusted': PYVC_TRUST + ['g++ 12 x86-64 layout of packed, aligned structs (what the property is about): measured, not modelled'],
+    'assumptions': ['the paddings prophyc computes are the documented ones (C04 contracts, discharged here again); that '
+                    'cpp.py turns them into fields and that g++ lays those out as the wire does is checked by the bounded '
+                    'stand-in only (offsetof/sizeof evaluated by g++ over a schema family)'],
+    'level': 'other',
+    'technique': 'contract-based deductive verification of the layout computation (PyVC on prophyc/model.py); bounded '
+                 'stand-in: offsetof/sizeof of the generated raw header evaluated by g++ over a schema family',
+}
+PROPS['C19']['static'] = ['vf.cxx_check:C19']
+PROPS['C19']['standins'] = ['py_codec', 'cxx_codec']
+PROPS['C19']['cxx'] = True
+PROPS['C19']['trusted'] = PYVC_TRUST + CXX_TRUST
+PROPS['C19']['technique'] = CXX_TECH
+
 PROPS['C20'] = {
     'modules': ['contracts.c16_files', 'contracts.c14_expr'],
     'static': ['vf.effects:check_determinism'],
